@@ -28,8 +28,8 @@ def funcs : List (String × String) := [
   ("internal/msgpipeline/config.go:type msgpipelineCfg", "66b7381cae9aebcf"),
   ("internal/msgpipeline/config.go:type sourceIn", "db52ad3cfe4ec85e"),
   ("internal/msgpipeline/config.go:validMatchRule", "691ad6f172509cc5"),
-  ("internal/msgpipeline/msgpipeline.go:MsgPipeline.Start", "2567ac34fcd9d9e9"),
-  ("internal/msgpipeline/msgpipeline.go:msgpipelineDelivery.AddRcpt", "4a921086f6367c2d"),
+  ("internal/msgpipeline/msgpipeline.go:MsgPipeline.Start", "9b9e3864f9de0ef6"),
+  ("internal/msgpipeline/msgpipeline.go:msgpipelineDelivery.AddRcpt", "483b2d7e72200db8"),
   ("internal/msgpipeline/msgpipeline.go:msgpipelineDelivery.getDelivery", "dc504feb895154cd"),
   ("internal/msgpipeline/msgpipeline.go:msgpipelineDelivery.rcptBlockForAddr", "85340c694dae1c5e"),
   ("internal/msgpipeline/msgpipeline.go:msgpipelineDelivery.srcBlockForAddr", "ac85a9939a6cdf22")
